@@ -27,11 +27,11 @@ def run(cmd, cwd, timeout=1800):
     return p.returncode, p.stdout
 
 
-def demo(dst, n=3):
+def demo(dst, n=3, race=False):
     """returns list of exit codes of n runs of the demonstration"""
     codes = []
     for _ in range(n):
-        rc, out = run(["go", "test", "-vet=off", "-count=1", "-run", "^TestSeededDemo$", "-timeout", "120s", "."], dst)
+        rc, out = run(["go", "test", "-vet=off", "-count=1"] + (["-race"] if race else []) + ["-run", "^TestSeededDemo$", "-timeout", "300s", "."], dst)
         codes.append(rc)
     return codes, out
 
@@ -65,8 +65,9 @@ def verify(src, sid):
     ok = True
     try:
         shutil.copy(demo_src, os.path.join(dst, "seeded_demo_test.go"))
-        codes, out = demo(dst)
-        rec["ran"].append("demo on unchanged tree x3: exit codes %s" % codes)
+        race = meta.get("property") == "C11"  # a data race is only observable under the race detector
+        codes, out = demo(dst, race=race)
+        rec["ran"].append("demo on unchanged tree x3%s: exit codes %s" % (" (-race)" if race else "", codes))
         if any(codes):
             ok = False
             print(sid, "REJECT: demo fails on the unchanged tree\n", out[-1500:])
@@ -81,8 +82,8 @@ def verify(src, sid):
         if rc != 0:
             ok = False
             print(sid, "REJECT: does not compile\n", out[-1500:])
-        codes, out = demo(dst)
-        rec["ran"].append("demo with patch x3: exit codes %s" % codes)
+        codes, out = demo(dst, race=race)
+        rec["ran"].append("demo with patch x3%s: exit codes %s" % (" (-race)" if race else "", codes))
         if not all(codes):
             ok = False
             print(sid, "REJECT: demo does not fail reliably with the patch", codes)
